@@ -171,6 +171,18 @@ pub enum Ctor {
     WithAddresses { vc: u8, proto: u8, fam: u8, fill: Fill },
 }
 
+/// Another connection handled by the same thread as the judged one: its bytes arrive in its own
+/// buffer (or, as `Scenario::recycled`, in the judged connection's buffer before that connection
+/// starts) and its receiver calls the same library routines at each of the `cuts` (buffer
+/// lengths). Its verdicts are not judged; it exists because a library that remembers anything
+/// between calls is only exposed by calls made on behalf of someone else.
+#[derive(Clone, Debug, PartialEq)]
+pub struct Neighbor {
+    pub entry: Entry,
+    pub stream: Vec<u8>,
+    pub cuts: Vec<usize>,
+}
+
 #[derive(Clone, Debug)]
 pub struct Scenario {
     /// property id of the check that owns this scenario
@@ -198,6 +210,13 @@ pub struct Scenario {
     /// not judged): the replay form of a violation that only manifests after other runs, i.e.
     /// when the code under test carries hidden state from one call to the next
     pub prelude: Vec<Scenario>,
+    /// the previous user of the judged connection's receive buffer (buffer pool): parsed at each
+    /// of its cuts in the very same allocation, then abandoned; the judged connection's bytes
+    /// then overwrite it at the same address
+    pub recycled: Option<Neighbor>,
+    /// connections whose receive steps are interleaved with the judged connection's steps
+    /// (one step of each neighbour before every step of the judged receiver)
+    pub neighbors: Vec<Neighbor>,
 }
 
 impl Scenario {
@@ -216,6 +235,8 @@ impl Scenario {
             ctor: None,
             ops: Vec::new(),
             prelude: Vec::new(),
+            recycled: None,
+            neighbors: Vec::new(),
         }
     }
     pub fn meta(&self, k: &str) -> Option<i64> {
@@ -278,6 +299,15 @@ impl Scenario {
                 Value::Array(self.ops.iter().map(bop_to_json).collect()),
             );
         }
+        if let Some(n) = &self.recycled {
+            m.insert("recycled_buffer".into(), neighbor_to_json(n));
+        }
+        if !self.neighbors.is_empty() {
+            m.insert(
+                "neighbors".into(),
+                Value::Array(self.neighbors.iter().map(neighbor_to_json).collect()),
+            );
+        }
         if !self.prelude.is_empty() {
             m.insert(
                 "prelude".into(),
@@ -328,6 +358,14 @@ impl Scenario {
                 sc.ops.push(bop_from_json(e)?);
             }
         }
+        if let Some(n) = o.get("recycled_buffer") {
+            sc.recycled = Some(neighbor_from_json(n)?);
+        }
+        if let Some(a) = o.get("neighbors").and_then(|x| x.as_array()) {
+            for e in a {
+                sc.neighbors.push(neighbor_from_json(e)?);
+            }
+        }
         if let Some(a) = o.get("prelude").and_then(|x| x.as_array()) {
             for e in a {
                 sc.prelude.push(Scenario::from_json(e)?);
@@ -335,6 +373,30 @@ impl Scenario {
         }
         Ok(sc)
     }
+}
+
+fn neighbor_to_json(n: &Neighbor) -> Value {
+    json!({
+        "entry": n.entry.name(),
+        "stream_hex": hex(&n.stream),
+        "stream_text": printable(&n.stream, 120),
+        "cuts": n.cuts,
+    })
+}
+
+fn neighbor_from_json(v: &Value) -> Result<Neighbor, String> {
+    Ok(Neighbor {
+        entry: Entry::from_name(v.get("entry").and_then(|x| x.as_str()).ok_or("neighbor.entry")?)
+            .ok_or("bad neighbor entry")?,
+        stream: unhex(v.get("stream_hex").and_then(|x| x.as_str()).ok_or("neighbor.stream_hex")?)?,
+        cuts: v
+            .get("cuts")
+            .and_then(|x| x.as_array())
+            .ok_or("neighbor.cuts")?
+            .iter()
+            .map(|c| c.as_u64().map(|c| c as usize).ok_or("neighbor.cut".to_string()))
+            .collect::<Result<Vec<_>, _>>()?,
+    })
 }
 
 pub fn hex(b: &[u8]) -> String {
